@@ -20,7 +20,7 @@ RULE = ('Hypothesis-generated timetables of 1-6 entries (durations on the dyadic
 ASSUMPTIONS = ['registration changes issued at one instant get distinct priorities, none equal to the transition '
                'priority (their relative order would otherwise be a tie-break outcome)',
                'cyclical timetables have positive total duration (W2)']
-G = [0, 0.25, 0.5, 1, 1, 2, 3.5]
+G = [0, 0.25, 0.5, 1, 1, 2, 3.5, 1 / 3, 1 / 7]      # also durations that need more than 9 decimals
 OBJS = ['o1', 'o2', 'o3']
 
 
